@@ -577,7 +577,7 @@ def run(prop_id, tier, seed, replay=None):
             raise vlib.MachineryError(f"role A: action {act} never fired (coverage {acts})")
     results = []
     try:
-        for f in cf.as_completed(futs, timeout=1200 if tier == "quick" else 5400):
+        for f in cf.as_completed(futs, timeout=2400 if tier == "quick" else 7200):
             results += f.result()
     except cf.TimeoutError:
         pending = [futs[f][0] for f in futs if not f.done()]
